@@ -667,8 +667,11 @@ def run(ctx):
         ctx.undec('R-WINDSCAN', 'scan', wgt, 'layer count derivation or skip loop not in the recognised form')
     else:
         from ..sizealg import to_poly as _tp
+        from .. import paths as _pws
         for st in skips:
-            got = _tp(st.iter.args[0], {}, atomize=lambda n: 'L' if norm(n) == 'self.nlayers' else None)
+            # the count with local temporaries substituted (an extracted skip helper binds it to a parameter first)
+            cnt_ = _pws.subst(st.iter.args[0], _pws.dominating_env(gt, st))
+            got = _tp(cnt_, {}, atomize=lambda n: 'L' if norm(n) == 'self.nlayers' else None)
             if got == inv:
                 ctx.ok('R-WINDSCAN', norm(st.iter), wgt, 'skips %s records = records per step' % got)
             else:
